@@ -38,6 +38,48 @@ class FakeFile(object):
         self.pos += len(out)
         return out
 
+class OsFile(object):
+    """A real buffered OS file whose content was just WRITTEN through the very handle the stream gets and not
+    flushed (the short-write / lost-write seam of a real disk: what the kernel holds lags behind what the process
+    wrote).  Reads are logged like FakeFile's."""
+    _n = [0]
+    live = []
+    def __init__(self, data, buffering):
+        import os
+        OsFile._n[0] += 1
+        self.path = os.path.join(core.workdir(), 'osfile.%d.%d' % (os.getpid(), OsFile._n[0]))
+        self.f = open(self.path, 'w+b', buffering=buffering)
+        self.f.write(data)                   # no flush, position at the end
+        self.data = data
+        self.reads = []
+        self.eio_fired = False
+        OsFile.live.append(self)
+    def fileno(self):
+        return self.f.fileno()
+    def seek(self, pos, whence=0):
+        return self.f.seek(pos, whence)
+    def tell(self):
+        return self.f.tell()
+    def read(self, n=-1):
+        pos = self.f.tell()
+        out = self.f.read(n)
+        self.reads.append((pos, n, len(out)))
+        return out
+    def close(self):
+        import os
+        try:
+            self.f.close()
+        except Exception:
+            pass
+        try:
+            os.unlink(self.path)
+        except OSError:
+            pass
+
+def cleanup_osfiles():
+    while OsFile.live:
+        OsFile.live.pop().close()
+
 class FakeVirt(object):
     """Callable address space for bin_stream_virt; with base > 0 a sparse image
     whose bytes live at [base, base+len) (e.g. a 64-bit image base)."""
@@ -57,7 +99,7 @@ class FakeVirt(object):
     def __getitem__(self, item):
         return self.data[item]
 
-BACKENDS = ('str', 'file', 'virt', 'bytearray')
+BACKENDS = ('str', 'file', 'virt', 'bytearray', 'file', 'virt', 'str', 'osfile')
 
 def open_stream(kind, image, off, eio_at=None, base=0):
     """Returns (stream, backing) via the real bin_stream factory.  base != 0
@@ -69,6 +111,9 @@ def open_stream(kind, image, off, eio_at=None, base=0):
         return s.B.bin_stream(bytearray(image), off), None      # a mutable byte buffer must behave like bytes
     if kind == 'file':
         f = FakeFile(image, eio_at)
+        return s.B.bin_stream(f, off), f
+    if kind == 'osfile':
+        f = OsFile(image, 4096 if len(image) % 2 else 64)
         return s.B.bin_stream(f, off), f
     v = FakeVirt(image, base)
     return s.B.bin_stream(v, base + off), v
@@ -207,6 +252,9 @@ def run_ops(image, ops, pristine=None):
     img = {}
     handles = {}
     bases = {}
+    cleanup_osfiles()
+    # one attribute dictionary kept by the clients of this run and switched between 16- and 32-bit mode in place
+    shared_attr = {} if (len(ops) % 3 == 0) else None
     for n, op in enumerate(ops):
         c = op['c']
         if op['op'] == 'share':
@@ -222,14 +270,14 @@ def run_ops(image, ops, pristine=None):
             img[c] = (data, op['kind'])
             try:
                 prev = handles.get(op.get('reuse'))
-                if op['kind'] == 'file' and prev is not None and prev.data == data:
+                if op['kind'] in ('file', 'osfile') and prev is not None and prev.data == data:
                     # a second stream over the SAME file handle, wherever earlier reads left it
                     streams[c] = (s.B.bin_stream(prev, op['off']), prev)
                     stats['handle-reused'] = stats.get('handle-reused', 0) + 1
                 else:
                     streams[c] = open_stream(op['kind'], data, op['off'], None, op.get('base', 0) if op['kind'] == 'virt' else 0)
                 bases[c] = op.get('base', 0) if op['kind'] == 'virt' else 0
-                if op['kind'] == 'file':
+                if op['kind'] in ('file', 'osfile'):
                     handles[c] = streams[c][1]
                 if streams[c][0].offset != bases[c] + op['off']:
                     return {'class': 'R1:open-not-positioned', 'op': n, 'detail': {'backend': op['kind'], 'off': op['off'],
@@ -274,6 +322,9 @@ def run_ops(image, ops, pristine=None):
                 v['op'] = n
                 return v, stats
             a = attrib_of(mode)
+            if shared_attr is not None:
+                shared_attr['opmode'] = s.A.u16 if mode == 16 else s.A.u32
+                a = shared_attr
             mine = outcome(lambda: s.A.x86mnemo.dis(st, a) if a else s.A.x86mnemo.dis(st))
             fresh = outcome(lambda: dis_bytes(data[off:], mode))
             if mine[0] != fresh[0] or (mine[0] == 'exc' and mine[1] != fresh[1]):
